@@ -119,6 +119,15 @@ REL_KINDS = [
     ("lambda-nested-query-name", "bool", lambda n: ("lam", I("comments"), "any", "c",
                                                     ("lam", T.path("c", "post", "labels"), "any", "t",
                                                      ("cmp", "eq", T.path("t", "label"), T.S("zq%dw" % n))))),
+    # one relationship in two roles: owner of a path AND compared as a value (its key), path first
+    ("rel-path-then-compared-null", "bool", lambda n: ("bool", "or", ("cmp", "eq", T.path("author", "name"), T.S("zq%dw" % n)),
+                                                       ("cmp", "eq", I("author"), T.lit("null", "null")))),
+    ("rel-path-then-compared-ne-null", "bool", lambda n: ("bool", "and", T.call("startswith", T.path("author", "name"), T.S("zq%dw" % n)),
+                                                          ("cmp", "ne", I("author"), T.lit("null", "null")))),
+    ("rel-compared-then-path", "bool", lambda n: ("bool", "or", ("cmp", "eq", I("author"), T.lit("null", "null")),
+                                                  ("cmp", "gt", T.path("author", "age"), T.I(7000 + n)))),
+    ("rel-path2-then-compared", "bool", lambda n: ("bool", "or", ("cmp", "eq", T.path("author", "country", "name"), T.S("zq%dw" % n)),
+                                                   ("cmp", "eq", T.path("author", "country"), T.lit("null", "null")))),
     ("lambda-path-owner", "bool", lambda n: ("lam", T.path("author", "posts"), "any", "p",
                                              ("cmp", "ge", T.path("p", "rating"), T.I(7000 + n)))),
 ]
